@@ -44,7 +44,7 @@ class LoopSpec:
 class Contract:
     def __init__(self, module, qual, prop, params, cases, pre=None, modifies=None, result=None, loops=None,
                  assumed=False, inline=False, key=None, replay=None, note="", frame_exempt=(), varargs=None,
-                 kwdefaults=None, props=None):
+                 kwdefaults=None, props=None, axioms=None):
         self.module, self.qual, self.prop = module, qual, prop
         self.params = params          # list of (name, Type)
         self.cases = cases
@@ -59,6 +59,7 @@ class Contract:
         self.note = note
         self.frame_exempt = frame_exempt
         self.props = props or [prop]
+        self.axioms = axioms or (lambda E: [])   # definitional axioms of the spec functions used (assumed, never obliged)
 
     @property
     def name(self):
